@@ -449,7 +449,95 @@ def rule_count_from_strategy(ctx, R="C17/count-from-strategy"):
     ctx.floor(R, "success values of MemReader::read", n, 6)
 
 
+IDENTITY_FIELDS = ("blamed_thread", "process_id", "pid", "tid", "thread_id")
+READER_CTORS = {MR + "::new": None, MR + "::for_virtual_mem": "VirtualMem", MR + "::for_file": "File", MR + "::for_ptrace": "Ptrace"}
+
+
+def rule_reader_identity(ctx, R="C17/reader-identity"):
+    """`the target's bytes` begins with reading the target: every reader is built for a pid that comes from the writer's target
+    identity (the process id it was created for, the blamed thread, a listed thread's tid) — never this process, a constant or a
+    parent id — the constructors store that pid with the strategy their name says, and copy_from_process reads from the pid it is given."""
+    prog = ctx.prog
+    cg, _ = prog.callgraph()
+    callers = {}
+    for f, cs in cg.items():
+        for c in cs:
+            callers.setdefault(c, set()).add(f)
+    # constructors
+    n = 0
+    for fn, style in sorted(READER_CTORS.items()):
+        outs = return_origins_(prog, fn)
+        if outs is None:
+            ctx.violated(R, ("anchor", fn.split("::")[-1]), None, "anchor missing: %s" % fn)
+            continue
+        for e in outs:
+            e = strip(e)
+            if e[0] != "agg":
+                continue
+            n += 1
+            f = dict(e[3])
+            pid = strip(f.get("pid", ("?",)))
+            okp = pid[0] == "call" and pid[1].endswith("Pid::from_raw") and pid[2][0] == ("param", 1)
+            st = strip(f.get("style", ("?",)))
+            if style is None:
+                oks = st[0] == "agg" and st[2] == "None"
+            else:
+                oks = st[0] == "agg" and st[2] == "Some" and strip(dict(st[3])["0"])[0] == "agg" and strip(dict(st[3])["0"])[2] == style
+            b0 = prog.by_short[fn][0]
+            ctx.check(okp and oks, R, ("ctor", fn.split("::")[-1]), b0.where(0), "%s(pid) is a reader for that pid with strategy %s" % (fn.split("::")[-1], style or "to be probed"),
+                      "%s builds {pid: %s, style: %s}" % (fn.split("::")[-1], show(pid)[:50], show(st)[:50]))
+    ctx.floor(R, "reader constructors", n, 4)
+    # who builds readers, and for whom
+    sites = 0
+
+    def classify(e, fn, depth=0):
+        """-> list of problems (empty = an identity of the target)"""
+        e = core(e)
+        if e[0] == "phi":
+            return [p_ for x in e[1] for p_ in classify(x, fn, depth)]
+        if e[0] == "field" and e[2] in IDENTITY_FIELDS:
+            return []
+        if e[0] == "call" and e[1].split("::")[-1] in ("as_raw", "from_raw", "from", "into", "try_into", "unwrap", "clone") and e[2]:
+            return classify(e[2][0], fn, depth)
+        if e[0] == "param":
+            cs = callers.get(fn, set())
+            b0 = prog.by_short[fn][0]
+            if not cs:
+                return [] if depth == 0 or True else ["?"]     # an entry point of the public API: the caller names the target
+            if depth > 4:
+                return ["call chain too deep from %s" % fn.split("::")[-1]]
+            out = []
+            for c in sorted(cs):
+                for cb in prog.by_short.get(c, ()):
+                    co = Origin(cb)
+                    for bi, t in cb.calls(lambda cv: cv.target == fn or cv.short == fn):
+                        a = co.call_args(bi)
+                        if e[1] - 1 < len(a):
+                            out += classify(a[e[1] - 1], c, depth + 1)
+            return out
+        return ["%s in %s" % (show(e)[:60], fn.split("::{closure")[0].split("::")[-1])]
+    cfp = [b.short for b in prog.bodies if b.short.endswith("PtraceDumper>::copy_from_process") or b.short.endswith("PtraceDumper::copy_from_process")]
+    targets = set(READER_CTORS) | set(cfp) | {"linux::module_reader::ProcessReader::new"}
+    for b in prog.bodies:
+        o = None
+        for bi, t in b.calls(lambda c: (c.target or c.short) in targets or c.short in targets):
+            o = o or Origin(b)
+            sites += 1
+            cv = CalleeView(t["callee"])
+            bad = classify(o.call_args(bi)[0], b.short)
+            k = sum(1 for x, _ in b.calls(lambda c: (c.target or c.short) in targets or c.short in targets) if x <= bi)
+            ctx.check(not bad, R, ("site", "::".join(b.short.split("::{closure")[0].split("::")[-2:]), "%s#%d" % ((cv.short or "").split("::")[-1], k)), b.where(bi),
+                      "the reader is built for an identity of the target", "a reader is built for something that is not the target's identity: %s" % "; ".join(sorted(set(bad))[:3]))
+    ctx.floor(R, "sites that build a reader", sites, 13)
+
+
+def return_origins_(prog, fn):
+    from engine.summ import return_origins
+    return return_origins(prog, fn)
+
+
 def run(ctx):
+    rule_reader_identity(ctx)
     rule_count_from_strategy(ctx)
     rule_peek_errno(ctx)
     rule_no_over_read(ctx)
